@@ -1,37 +1,43 @@
 import Operon.Model.Proto
 import Operon.Model.Ribosome
 import Operon.Model.Tmpl
-/-! Line-protocol driver for the ribosome model (C12).
+/-! Line-protocol driver for the ribosome model (C12).  A case is a history over several instances.
 
-  env <extraWordCps> <extraSpaceCps> <markerPre> <markerSuf> <filterName>*
-  tmpl <name> <sequence>
+  env <extraWordCps> <extraSpaceCps> <markerPre> <markerSuf> (<set>=<filterName>,…)*
   ctx (<name>=<kind><truthy>,<text>[,L<item>;<item>…])*  item = <kind><text>[/<key>~<value>]*
-  fenv (<filter>:<var>:o:<result> | <filter>:<var>:r:<class>)*
-  render <sequence> <strict>         (Ribosome(strict).synthesize)
-  translate <name> <strict>          (Ribosome(strict).translate(name))
+  fenv (<set>:<filter>:<var>:o:<result> | <set>:<filter>:<var>:r:<class>)*
+  new <id> <strict> <set>
+  tmpl <id> <name> <sequence>
+  render <id> <sequence>             (synthesize on that instance)
+  translate <id> <name>
 -/
 open Operon Operon.Proto Operon.Ribosome Operon.Tmpl
+
+structure Inst where
+  strict : Bool := false
+  fset : String := ""
+  templates : List (Str × Str) := []
 
 structure DSt where
   words : List Nat := []
   spaces : List Nat := []
   mpre : Str := []
   msuf : Str := []
-  filters : List Str := []
-  templates : List (Str × Str) := []
+  fsets : List (String × List Str) := []
+  insts : List (String × Inst) := []
   ctx : Ctx := []
-  fenv : List ((Str × Str) × FRes) := []
+  fenv : List ((String × Str × Str) × FRes) := []
 
-def mkCfg (st : DSt) (strict : Bool) : Cfg :=
+def mkCfg (st : DSt) (i : Inst) : Cfg :=
   { isWord := fun c => asciiWord c || st.words.contains c
     isSpace := fun c => asciiSpace c || st.spaces.contains c
-    filters := st.filters
+    filters := ((st.fsets.find? (fun p => p.1 == i.fset)).map (·.2)).getD []
     applyF := fun f v =>
-      match st.fenv.find? (fun e => e.1.1 == f && e.1.2 == v) with
+      match st.fenv.find? (fun e => e.1.1 == i.fset && e.1.2.1 == f && e.1.2.2 == v) with
       | some e => e.2
       | none => .raise [75, 101, 121, 69, 114, 114, 111, 114]   -- "KeyError": not in the recorded table
-    templates := st.templates
-    strict := strict
+    templates := i.templates
+    strict := i.strict
     markerPre := st.mpre
     markerSuf := st.msuf }
 
@@ -59,9 +65,15 @@ def parseEntry (s : String) : Option (Str × Val) :=
     | _ => none
   | _ => none
 
-def parseF (s : String) : Option ((Str × Str) × FRes) :=
+def parseF (s : String) : Option ((String × Str × Str) × FRes) :=
   match s.splitOn ":" with
-  | [f, v, k, r] => some ((decodeCps f, decodeCps v), if k = "o" then .ok (decodeCps r) else .raise (decodeCps r))
+  | [st, f, v, k, r] =>
+    some ((st, decodeCps f, decodeCps v), if k = "o" then .ok (decodeCps r) else .raise (decodeCps r))
+  | _ => none
+
+def parseSet (s : String) : Option (String × List Str) :=
+  match s.splitOn "=" with
+  | [st, fs] => some (st, if fs = "" then [] else (fs.splitOn ",").map decodeCps)
   | _ => none
 
 def showCls (c : Str) : String := String.ofList (c.map Char.ofNat)
@@ -118,11 +130,12 @@ def resText : Res → Option Str
   | .error _ => none
 
 /-- run the three layers on one template; observation of the string layer + layer report as tags -/
-def renderAll (st : DSt) (strict : Bool) (top : Str) : String :=
-  let cfg := mkCfg st strict
+def renderAll (st : DSt) (inst : Inst) (top : Str) : String :=
+  let strict := inst.strict
+  let cfg := mkCfg st inst
   let rs := translate cfg st.ctx defaultFuel top
   let tops := lex cfg top
-  let reg : Reg := st.templates.map fun p => (p.1, lex cfg p.2)
+  let reg : Reg := inst.templates.map fun p => (p.1, lex cfg p.2)
   let rt := renderTok cfg strict reg st.ctx defaultFuel tops
   let tt : Option Str := match rt with | .ok (x, _) => some (printToks x) | .error _ => none
   let layersAgree := resText rs == tt
@@ -155,25 +168,43 @@ def renderAll (st : DSt) (strict : Bool) (top : Str) : String :=
     else showRes rs
   obs ++ " ## " ++ joinSp tags
 
+def getInst (st : DSt) (id : String) : Option Inst := (st.insts.find? (fun p => p.1 == id)).map (·.2)
+
+def setInst (st : DSt) (id : String) (i : Inst) : DSt :=
+  if st.insts.any (fun p => p.1 == id) then { st with insts := st.insts.map fun p => if p.1 = id then (id, i) else p }
+  else { st with insts := st.insts ++ [(id, i)] }
+
 def step (st : DSt) (toks : List String) : DSt × String :=
   match toks with
   | "env" :: w :: s :: p :: q :: fs =>
     ({ st with words := decodeCps w, spaces := decodeCps s, mpre := decodeCps p, msuf := decodeCps q,
-               filters := fs.map decodeCps }, "ok")
-  | ["tmpl", n, s] =>
-    let name := decodeCps n
-    -- dict assignment: an existing name keeps its slot
-    let ts := if st.templates.any (fun p => p.1 == name)
-      then st.templates.map (fun p => if p.1 = name then (name, decodeCps s) else p)
-      else st.templates ++ [(name, decodeCps s)]
-    ({ st with templates := ts }, "ok")
+               fsets := fs.filterMap parseSet }, "ok")
   | "ctx" :: es => ({ st with ctx := es.filterMap parseEntry, fenv := [] }, "ok")
   | "fenv" :: es => ({ st with fenv := es.filterMap parseF }, "ok")
-  | ["render", s, strict] => (st, renderAll st (boolOf strict) (decodeCps s))
-  | ["translate", n, strict] =>
-    match lookup (decodeCps n) st.templates with
-    | some t => (st, renderAll st (boolOf strict) t)
-    | none => (st, showRes (translateNamed (mkCfg st (boolOf strict)) st.ctx (decodeCps n)))
+  | ["new", id, strict, fset] =>
+    if st.fsets.any (fun p => p.1 == fset) then (setInst st id { strict := boolOf strict, fset := fset }, "ok")
+    else (st, "bad-op")
+  | ["tmpl", id, n, s] =>
+    match getInst st id with
+    | none => (st, "bad-op")
+    | some i =>
+      let name := decodeCps n
+      -- dict assignment: an existing name keeps its slot
+      let ts := if i.templates.any (fun p => p.1 == name)
+        then i.templates.map (fun p => if p.1 = name then (name, decodeCps s) else p)
+        else i.templates ++ [(name, decodeCps s)]
+      (setInst st id { i with templates := ts }, "ok")
+  | ["render", id, s] =>
+    match getInst st id with
+    | none => (st, "bad-op")
+    | some i => (st, renderAll st i (decodeCps s))
+  | ["translate", id, n] =>
+    match getInst st id with
+    | none => (st, "bad-op")
+    | some i =>
+      match lookup (decodeCps n) i.templates with
+      | some t => (st, renderAll st i t)
+      | none => (st, showRes (translateNamed (mkCfg st i) st.ctx (decodeCps n)))
   | _ => (st, "bad-op")
 
 def main : IO Unit := runDriver ({} : DSt) step
